@@ -653,7 +653,10 @@ impl VfsPath {
     /// assert!(directory.exists()?);
     /// # Ok::<(), VfsError>(())
     pub fn exists(&self) -> VfsResult<bool> {
-        self.fs.fs.exists(&self.path)
+        self.fs.fs.exists(&self.path).map_err(|err| {
+            err.with_path(&*self.path)
+                .with_context(|| "Could not check existence")
+        })
     }
 
     /// Returns the filename portion of this path
